@@ -240,11 +240,12 @@ def run_path_enum(desc):
 
 
 GRID_LISTS = [['', '!b'], ['!b', ''], ['!b|'], ['|!b'], [''], ['a||b'], ['!skip'], ['!skip', '!other*'], ['*', '!a'], ['-a'], ['*', '-a*'], ['a', 'b'], ['*.txt|!a.txt'], ['!a|!b'], ['**', '!**/a'], ['*/'],
-              ['!*/'], ['{a,b}*', '!b*'], ['!.a'], ['*', '!.*'], ['.*', '!.a'], ['a/**', '!a/b'], ['!(a)'], ['!(a)', '!b'], ['\\!a'], ['!!a']]
+              ['!*/'], ['{a,b}*', '!b*'], ['!.a'], ['*', '!.*'], ['.*', '!.a'], ['a/**', '!a/b'], ['!(a)'], ['!(a)', '!b'], ['\\!a'], ['!!a'],
+              ['*', '-(a)'], ['-(a)'], ['*', '-(a|b)'], ['-(a)*', '!(a)']]
 GRID_EXCL = [None, 'a', ['a', 'b*'], '!keep', '.*', '*/', [], '', ()]      # (an empty exclude= is still an exclude=)
 GRID_FLAGS = ['NEGATE', 'NEGATEALL', 'NODIR', 'MINUSNEGATE', 'SPLIT', 'DOTMATCH', 'GLOBSTAR', 'EXTMATCH', 'BRACE']
 GRID_NAMES = ['a', 'b', 'ab', 'a.txt', 'b.txt', 'skip', 'other1', 'keep', 'keep/', 'a/', 'a/b', 'a/b/', 'x/a', '.a', '.b', 'x/.a', '!a', '-a', '!keep',
-              '!skip', 'a/.', 'd/..', '.', '..', 'x', 'x/']
+              '!skip', 'a/.', 'd/..', '.', '..', 'x', 'x/', '(a)', '-(a)', '(a|b)', '(a)x']
 
 
 def run_grid(desc):
